@@ -284,11 +284,11 @@ def match_known(known, prop, obligation, desc):
 def playback_test(repo, h, scratch):
     """re-run one failing harness with concrete playback; returns (test_src, raw_output)"""
     cmd = ['cargo', 'kani'] + KANI_FLAGS + ['-Z', 'concrete-playback', '--concrete-playback=print', '--exact',
-                                           '--harness', h.fq, '--harness-timeout', f'{h.timeout}s']
+                                           '--harness', h.fq, '--harness-timeout', f'{min(h.timeout, 400)}s']
     env = dict(os.environ, CARGO_NET_OFFLINE='true', CARGO_TERM_COLOR='never')
     try:
         out = subprocess.run(cmd, cwd=repo, env=env, stdout=subprocess.PIPE, stderr=subprocess.STDOUT, text=True,
-                             timeout=h.timeout + 600).stdout
+                             timeout=min(h.timeout, 400) + 200).stdout
     except subprocess.TimeoutExpired as e:
         return None, 'playback generation timed out'
     tests = re.findall(r'```\n(.*?)```', out, re.S)
@@ -309,7 +309,7 @@ def native_replay(repo, unit, tests, descs):
     s = open(wf).read().replace(f'#[path = "{unit.path}"]', f'#[path = "{hp}"]')
     open(wf, 'w').write(s)
     cmd = ['cargo', 'kani', 'playback', '--lib', '-Z', 'concrete-playback', '--', 'kani_concrete_playback', '--test-threads', '1']
-    env = dict(os.environ, CARGO_NET_OFFLINE='true', CARGO_TERM_COLOR='never', RUST_BACKTRACE='0')
+    env = dict(os.environ, CARGO_NET_OFFLINE='true', CARGO_TERM_COLOR='never', RUST_BACKTRACE='0', RUSTFLAGS='--cfg verif_replay')
     try:
         out = subprocess.run(cmd, cwd=repo, env=env, stdout=subprocess.PIPE, stderr=subprocess.STDOUT, text=True,
                              timeout=1200).stdout
@@ -510,7 +510,10 @@ def main(argv):
                 descs = [c['description'] for c in v['failed_checks']]
                 replay = {'property': prop, 'obligation': h.id, 'harness': h.fq, 'unit': h.unit.name, 'text': h.text,
                           'failed_checks': v['failed_checks'], 'tier': a.tier}
-                tests, tail = playback_test(repo, h, scratch)
+                if h.meta.get('replay') == 'none':
+                    tests, tail = [], 'harness replaces callees by recorder/memo stubs: a native replay would not exercise the same code; no playback generated'
+                else:
+                    tests, tail = playback_test(repo, h, scratch)
                 replay['kani_output'] = tail
                 replay['playback_tests'] = tests or []
                 native = 'no-counterexample'
